@@ -174,7 +174,7 @@ func emitVerify(o *Out, key, cand []byte, ds [][]byte, trusted map[string][]maca
 // ---------------------------------------------------------------- C01 forge
 
 func famForge(r *Rng, o *Out, tier string) {
-	n := 25
+	n := 40
 	if tier == "thorough" {
 		n = 800
 	}
@@ -428,7 +428,7 @@ type dcand struct {
 }
 
 func famDischarge(r *Rng, o *Out, tier string) {
-	n := 120
+	n := 250
 	if tier == "thorough" {
 		n = 4000
 	}
@@ -768,7 +768,7 @@ func clearObs(key, tok []byte, ds [][]byte, accs []macaroon.Access) string {
 // ---------------------------------------------------------------- C06 bind
 
 func famBind(r *Rng, o *Out, tier string) {
-	n := 40
+	n := 70
 	if tier == "thorough" {
 		n = 1200
 	}
@@ -1007,7 +1007,7 @@ func attestObs(key []byte, tok []byte, ds [][]byte, trusted map[string][]macaroo
 }
 
 func famAttest(r *Rng, o *Out, tier string) {
-	n := 30
+	n := 40
 	if tier == "thorough" {
 		n = 600
 	}
@@ -1259,7 +1259,7 @@ func famAttest(r *Rng, o *Out, tier string) {
 // ---------------------------------------------------------------- C08 proof
 
 func famProof(r *Rng, o *Out, tier string) {
-	n := 200
+	n := 600
 	if tier == "thorough" {
 		n = 6000
 	}
@@ -1413,7 +1413,7 @@ func famProof(r *Rng, o *Out, tier string) {
 // ---------------------------------------------------------------- C02 attenuate
 
 func famAttenuate(r *Rng, o *Out, tier string) {
-	n := 60
+	n := 120
 	if tier == "thorough" {
 		n = 2000
 	}
